@@ -5,6 +5,10 @@ Engine E2 (mc.inputs): bounded exhaustive enumeration of inputs x configurations
   part iter_splitlines   every text <= N over 12 symbols (all 8 line-break forms of the statement, plus 'a', space,
                          '2', '8', '9' - the characters of the pinned `\\x2028` typo); oracle str.splitlines() plus one
                          final '' when the text ends with a line break.
+  part iter_splitlines-chars  "never splits anywhere else": every code point U+0000..U+10FFFF (except \\x1c-\\x1e, which
+                         str.splitlines breaks at but the statement does not list) inside 'aXb', the code points below
+                         U+3000 in 8 more templates, every 2-character text over Latin-1 + U+2028/9 (second call), and
+                         directed bulk texts of 2**k +-1 lines (all break forms; \\x1f-delimited records); same oracle.
   part indent            every text <= N-1 x 2 (margin, newline, key) settings; oracle: the documented rule applied to
                          the reference splitter.
   part reverse_iter_lines  every content <= M tokens over {a, e-acute (2 bytes), U+2028 (3 bytes, NOT a separator
@@ -13,6 +17,17 @@ Engine E2 (mc.inputs): bounded exhaustive enumeration of inputs x configurations
                          TextIOWrapper(BytesIO)) x preseek True / False-with-cursor-at-end.
                          Oracle (DESIGN 5.1): no element contains a line break and '\\n'.join(reversed(L)) == content
                          with \\r\\n -> \\n, i.e. L == content.split('\\n')[::-1]; identical for every blocksize.
+  part reverse_iter_lines-file-state  the same contents (one token shorter) x a reduced set of block sizes x the state
+                         of the file object handed over: text-mode w+ / a+ / r+ files, a binary r+b file and a
+                         TextIOWrapper(BytesIO()) whose newest lines were written through the object and are still
+                         unflushed, and a text-mode file that was already read from; same oracle (the content is
+                         what reading the object back would show).
+  part reverse_iter_lines-block-edges  directed: files a little larger than twice jsonutils.DEFAULT_BLOCKSIZE made of a
+                         repeated pattern (CRLF, 2/3/4-byte characters, empty lines), shifted so that every byte of the
+                         pattern falls on a block edge, read with the default block, the constant, +-1 and x2.
+  part reverse_iter_lines-encodings  text-mode files in latin-1, cp1252 and utf-8-sig and binary objects passed with an
+                         explicit encoding=, every content <= 3 tokens x every blocksize x preseek; plus JSONLIterator
+                         forward / reverse over such text-mode files.
   part reverse_iter_lines-multibyte  "content with multi-byte characters": for every UTF-8 lead byte (0xC2..0xF4) the
                          lowest and the highest code point encoded with it (so every lead byte and the extreme
                          continuation bytes 0x80 / 0xBF occur) x 8 content templates that put the character at the
@@ -26,6 +41,11 @@ Engine E2 (mc.inputs): bounded exhaustive enumeration of inputs x configurations
   part jsonl-long-gaps   "whatever the file size": directed (NOT exhaustive in the size) files  gap obj gap obj gap  whose
                          gaps are runs of n blank / whitespace-only / corrupt / undecodable / mixed lines, n around
                          powers of two and around the interpreter's recursion limit; same oracle as part jsonl.
+  part jsonl-corrupt-forms  the forms of an undecodable line: 11 JSON values x 17 textual damages (two records run
+                         together, trailing garbage, truncation, wrong quotes, ...; padded / wrapped values stay
+                         valid), tab-only blank lines and a line nested deeper than json.loads accepts, in 4 file layouts
+                         x eol x file kind x ignore_errors x direction, driven with next(it) and with iter(it).next().
+                         Oracle: the stdlib json.loads decides which lines are records.
 
 Real files live in a scratch directory under /dev/shm which is removed at the end of the run.
 """
@@ -84,17 +104,18 @@ def saw_hang(t=None):
     return os.path.exists(HANG_FLAG)
 
 
-def drain(it):
+def drain(it, limit=None):
     """list(it) with an item limit; returns ('ok', list) | ('exc', TypeName) | ('hang', why)."""
+    limit = ITEM_LIMIT if limit is None else limit
     try:
         with deadline():
-            out = list(itertools.islice(it, ITEM_LIMIT + 1))
+            out = list(itertools.islice(it, limit + 1))
     except Hang:
         return ('hang', 'no result within %d s' % CALL_BUDGET_S)
     except Exception as e:
         return ('exc', type(e).__name__)
-    if len(out) > ITEM_LIMIT:
-        return ('hang', 'more than %d items' % ITEM_LIMIT)
+    if len(out) > limit:
+        return ('hang', 'more than %d items' % limit)
     return ('ok', out)
 
 
@@ -152,7 +173,7 @@ def classify_split(text, exp, obs):
 
 def check_split(strutils, text):
     exp = ref_splitlines(text)
-    obs = drain(strutils.iter_splitlines(text))
+    obs = drain(strutils.iter_splitlines(text), limit=max(ITEM_LIMIT, len(text) + 2))     # a split has <= len+1 pieces
     if obs == ('ok', exp):
         return None
     return ('C19|fn:iter_splitlines|' + classify_split(text, exp, obs), exp, list(obs))
@@ -227,11 +248,145 @@ def split_shards(maxlen, indent_maxlen):
 
 
 # ---------------------------------------------------------------------------------------------------------------
+# part 1b: "never splits anywhere else" - every character that is NOT a line break, and bulk texts.
+#
+# str.splitlines() also breaks at \x1c, \x1d, \x1e, which the statement does not list: texts containing them are outside
+# the statement's domain and are the only code points left out.  Every other code point is an ordinary character (or one
+# of the listed breaks) and the oracle stays str.splitlines().
+
+UNLISTED_BREAKS = ('\x1c', '\x1d', '\x1e')
+SWEEP_TEMPLATE = 'aXb'                                   # every code point U+0000..U+10FFFF (incl. lone surrogates)
+LOW_LIMIT = 0x3000                                       # below: controls, Latin, General Punctuation (U+2028/9) ...
+LOW_TEMPLATES = ('X', 'XX', 'aX', 'Xa', 'X\nX', 'X\r\n', '\rX', ' X8')
+SWEEP_SHARDS = 64
+PAIR_CHARS = tuple(c for c in map(chr, range(0x100)) if c not in UNLISTED_BREAKS) + ('\u2028', '\u2029')
+BULK_BREAKS = ('\n', '\r\n', '\r', '\x0b', '\x0c', '\x85', '\u2028', '\u2029')
+
+
+def chars_text(case):
+    if 'bulk' in case:
+        return bulk_text(case['bulk'], case['n'])
+    return case['template'].replace('X', ''.join(chr(cp) for cp in case['codepoints']))
+
+
+def bulk_sizes():
+    """Numbers of lines around powers of two (caches, chunked scans), smallest first."""
+    return sorted({2 ** k + d for k in (8, 10, 12, 16) for d in (-1, 0, 1)})
+
+
+def bulk_text(kind, n):
+    """n lines; kind 'cycle': line i is 'a'*(i%3) ended by break form i%8; 'us': \x1f-delimited fields ended by \n;
+    'final': as 'cycle' but without the last break."""
+    if kind == 'us':
+        return ''.join('%d\x1fa\x1f \n' % (i % 10) for i in range(n))
+    text = ''.join('a' * (i % 3) + BULK_BREAKS[i % len(BULK_BREAKS)] for i in range(n))
+    if kind == 'final':
+        text = text[:-1] if not text.endswith('\r\n') else text[:-2]
+    return text
+
+
+def chars_shard(arg):
+    from boltons import strutils
+    kind, which = arg
+    t = inputs.Tally()
+
+    def one(mod, case, nontrivial, tags=()):
+        text = chars_text(case)
+        t.count(nontrivial=nontrivial, sample=case if nontrivial else None)
+        bad = check_split(mod, text)
+        if bad:
+            t.bad(bad[0], case, bad[1] if len(text) < 100 else '<str.splitlines(text)>',
+                  bad[2] if len(text) < 100 else [bad[2][0], '<%s items>' % (len(bad[2][1]) if bad[2][0] == 'ok' else '?')],
+                  tags=tags)
+            if bad[0].endswith('no termination'):
+                saw_hang(t)
+                return False
+        return True
+
+    def many(mod, items, nontrivial_of):
+        """items: (template, code point tuple).  Fast pass: all items under one CPU-time budget, same oracle; any case
+        that disagrees (or a budget overrun, or an exception) goes through the per-case path, which classifies and
+        records it."""
+        split = mod.iter_splitlines
+        suspects = []
+        try:
+            with deadline():
+                for item in items:
+                    text = item[0].replace('X', ''.join(map(chr, item[1])))
+                    if list(itertools.islice(split(text), 8)) != ref_splitlines(text):
+                        suspects.append(item)
+        except Hang:
+            suspects = items
+        except Exception:
+            suspects = items
+        sus = set(suspects)
+        clean_nt = [it for it in items if it not in sus and nontrivial_of(it)]
+        t.count(nontrivial=False, n=len(items) - len(sus) - len(clean_nt))
+        if clean_nt:
+            t.count(nontrivial=True, n=len(clean_nt), sample={'part': 'iter_splitlines-chars',
+                                                             'template': clean_nt[0][0],
+                                                             'codepoints': list(clean_nt[0][1])})
+        for tpl, cps in suspects:
+            if not one(mod, {'part': 'iter_splitlines-chars', 'template': tpl, 'codepoints': list(cps)},
+                       nontrivial_of((tpl, cps))):
+                return False
+        return True
+
+    if kind == 'sweep':
+        import unicodedata
+        category = unicodedata.category
+        cps = [cp for cp in range(which, 0x110000, SWEEP_SHARDS) if chr(cp) not in UNLISTED_BREAKS]
+        for lo in range(0, len(cps), 1024):
+            if saw_hang():
+                t.add('cut_short_after_hang')
+                return t
+            block = cps[lo:lo + 1024]
+            # non-trivial: the characters that a sloppy pattern could take for a line break (assigned controls, format
+            # characters, separators - among them the listed breaks themselves), and templates with a line break
+            ntset = {cp for cp in block if category(chr(cp))[0] in 'CZ' and category(chr(cp)) not in ('Cn', 'Co', 'Cs')}
+            items = [(tpl, (cp,)) for cp in block
+                     for tpl in ((SWEEP_TEMPLATE,) + LOW_TEMPLATES if cp < LOW_LIMIT else (SWEEP_TEMPLATE,))]
+            if not many(strutils, items, lambda it: it[1][0] in ntset or '\n' in it[0]):
+                return t
+    elif kind == 'pairs':
+        mod = inputs.SecondCallModule(strutils, names=('iter_splitlines',))
+        brk = {ord(c) for c in BREAKS}
+        for c1 in PAIR_CHARS[which::16]:
+            if saw_hang():
+                t.add('cut_short_after_hang')
+                return t
+            items = [('X', (ord(c1), ord(c2))) for c2 in PAIR_CHARS]
+            if not many(mod, items, lambda it: it[1][0] in brk or it[1][1] in brk):
+                return t
+    elif kind == 'bulk':
+        for bk in ('cycle', 'final', 'us'):
+            for n in bulk_sizes():
+                t.add('bulk_texts')
+                if not one(strutils, {'part': 'iter_splitlines-chars', 'bulk': bk, 'n': n}, True,
+                           tags=('bulk_text',)):
+                    return t
+    return t
+
+
+def chars_shards():
+    return ([('sweep', k) for k in range(SWEEP_SHARDS)] + [('pairs', k) for k in range(16)] + [('bulk', 0)])
+
+
+# ---------------------------------------------------------------------------------------------------------------
 # part 2: reverse_iter_lines
 
 REV_TOKENS = ('a', '\n', '\r\n', '\u00e9', ' ', '\u2028')
 REV_MODES = ('bytesio', 'file-rb', 'file-rb-unbuffered', 'file-text', 'textio-bytesio')
-TEXT_MODES = ('file-text', 'textio-bytesio')
+# "state of the file object when it is handed over": files opened for update whose (newest) lines were written through
+# the very object and are still pending in its write buffer, and a text-mode file that has already been read from.
+# The content of such a file is what f.seek(0); f.read() would show.
+REV_WRITTEN_MODES = ('file-text-w+-unflushed', 'file-text-a+-unflushed', 'file-text-r+-unflushed',
+                     'file-r+b-unflushed', 'textio-bytesio-unflushed')
+REV_STATE_MODES = REV_WRITTEN_MODES + ('file-text-partly-read',)
+REV_STATE_MODES_QUICK = tuple(m for m in REV_STATE_MODES if m != 'file-text-r+-unflushed')    # r+ differs from a+ only
+                                                                                              # in how it is opened
+TEXT_MODES = ('file-text', 'textio-bytesio', 'file-text-w+-unflushed', 'file-text-a+-unflushed',
+              'file-text-r+-unflushed', 'textio-bytesio-unflushed', 'file-text-partly-read')
 
 
 def open_mode(mode, data, path):
@@ -251,14 +406,44 @@ def open_mode(mode, data, path):
     if mode == 'file-text':
         f = open(path, 'r', encoding='utf-8')
         return f, f.buffer.raw.close
+    if mode == 'file-text-partly-read':
+        f = open(path, 'r', encoding='utf-8', newline='')
+        f.read(1)                               # the wrapper now holds a decoded read-ahead chunk
+        return f, f.buffer.raw.close
+    if mode in REV_WRITTEN_MODES:
+        # the first half of the characters is in the file already, the second half is written through the object and
+        # not flushed (w+: everything is pending).  newline='' : no translation in either direction.
+        text = data.decode('utf-8')
+        path = path[:-len('.dat')] + '-w.dat'            # the other kinds keep reading the complete file at `path`
+        cut = 0 if mode in ('file-text-w+-unflushed', 'textio-bytesio-unflushed') else len(text) // 2
+        old, new = text[:cut], text[cut:]
+        if mode == 'textio-bytesio-unflushed':
+            b = io.BytesIO()
+            f = io.TextIOWrapper(b, encoding='utf-8', newline='')
+            f.write(new)
+            return f, b.close
+        if mode != 'file-text-w+-unflushed':
+            with open(path, 'wb') as g:
+                g.write(old.encode('utf-8'))
+        if mode == 'file-r+b-unflushed':
+            f = open(path, 'r+b')
+            f.seek(0, os.SEEK_END)
+            f.write(new.encode('utf-8'))
+            return f, f.close
+        f = open(path, mode[len('file-text-'):-len('-unflushed')], encoding='utf-8', newline='')
+        if mode == 'file-text-r+-unflushed':
+            f.seek(0, os.SEEK_END)
+        f.write(new)
+        return f, f.buffer.close
     raise AssertionError(mode)
 
 
 def call_reverse(jsonutils, mode, data, path, blocksize, preseek):
     f, closer = open_mode(mode, data, path)
     try:
-        if not preseek:
+        if not preseek and mode not in REV_WRITTEN_MODES:
             f.seek(0, os.SEEK_END)          # "the file cursor is already in position ... at the end of the file"
+        # (a file that has just been written to has its cursor at the end; seeking would flush the pending lines)
         kw = {}
         if blocksize is not None:
             kw['blocksize'] = blocksize
@@ -271,7 +456,7 @@ def call_reverse(jsonutils, mode, data, path, blocksize, preseek):
             return ('hang', 'no result')
         except Exception as e:
             return ('exc', type(e).__name__)
-        return drain(it)
+        return drain(it, limit=max(ITEM_LIMIT, len(data) + 2))      # a file of n bytes has at most n + 1 lines
     finally:
         try:
             closer()
@@ -326,7 +511,7 @@ def rev_tags(content):
     return tags
 
 
-def check_rev_content(jsonutils, content, path, modes, t):
+def check_rev_content(jsonutils, content, path, modes, t, blocksizes=None, part='reverse_iter_lines'):
     data = content.encode('utf-8')
     if any(m.startswith('file') for m in modes):
         with open(path, 'wb') as f:
@@ -336,10 +521,11 @@ def check_rev_content(jsonutils, content, path, modes, t):
         textmode = mode in TEXT_MODES
         accept = rev_expected(content, textmode)
         first = None
-        for preseek in (True, False):
-            for bs in rev_blocksizes(len(data)):
-                case = {'part': 'reverse_iter_lines', 'content': content, 'mode': mode, 'blocksize': bs,
-                        'preseek': preseek}
+        for preseek in ((True,) if mode == 'file-text-partly-read' else (True, False)):
+            for bs in (rev_blocksizes(len(data)) if blocksizes is None else blocksizes):
+                case = {'part': part, 'content': content, 'mode': mode, 'blocksize': bs, 'preseek': preseek}
+                if part == 'reverse_iter_lines-block-edges':
+                    case.update(content=None, **edge_case(content))
                 t.count(nontrivial=has_break, sample=case if has_break and bs and 1 < bs < len(data) else None)
                 obs = call_reverse(jsonutils, mode, data, path, bs, preseek)
                 if obs[0] == 'ok' and obs[1] in accept:
@@ -349,17 +535,26 @@ def check_rev_content(jsonutils, content, path, modes, t):
                         t.bad('C19|fn:reverse_iter_lines|result depends on blocksize', case, first, list(obs),
                               tags=rev_tags(content) + [mode])
                     continue
+                big = len(data) > 200
                 t.bad('C19|fn:reverse_iter_lines|' + classify_rev(content, textmode, obs, accept), case,
-                      accept[0] if len(accept) == 1 else {'any of': accept}, list(obs),
+                      '<content.split(LF) reversed>' if big else accept[0] if len(accept) == 1 else {'any of': accept},
+                      [obs[0], '<%d items>' % len(obs[1])] if big and obs[0] == 'ok' else list(obs),
                       tags=rev_tags(content) + [mode])
                 if obs[0] == 'hang':
                     saw_hang(t)
                     return
 
 
+def state_blocksizes(nbytes):
+    """For the file-state kinds (the block size is explored exhaustively with the plain kinds): the smallest blocks,
+    the file size -1 / exact / +1, and the default."""
+    return sorted(b for b in {1, 2, 3, nbytes - 1, nbytes, nbytes + 1} if b >= 1) + [None]
+
+
 def rev_shard(arg):
     from boltons import jsonutils
     scratch, n, prefix, modes = arg
+    few = tuple(modes) in (REV_STATE_MODES, REV_STATE_MODES_QUICK)
     t = inputs.Tally()
     path = os.path.join(scratch, 'rev-%d.dat' % os.getpid())
     fds0 = len(os.listdir('/proc/self/fd')) if os.path.isdir('/proc/self/fd') else None
@@ -368,7 +563,9 @@ def rev_shard(arg):
         if saw_hang():
             t.add('cut_short_after_hang')
             break
-        check_rev_content(jsonutils, head + ''.join(rest), path, modes, t)
+        content = head + ''.join(rest)
+        check_rev_content(jsonutils, content, path, modes, t,
+                          blocksizes=state_blocksizes(len(content.encode('utf-8'))) if few else None)
     if fds0 is not None:
         import gc
         gc.collect()
@@ -385,6 +582,186 @@ def rev_shards(scratch, maxtok, modes):
         for prefix in itertools.product(REV_TOKENS, repeat=depth):
             out.append((scratch, n, prefix, modes))
     return out
+
+
+# ---------------------------------------------------------------------------------------------------------------
+# part 2d: encodings other than UTF-8.  Text-mode files opened with a single-byte encoding (their characters >= 0x80 are
+# not valid UTF-8 on their own - or, worse, pairs of them are: latin-1 'A-tilde copyright' is the UTF-8 form of e-acute)
+# and with 'utf-8-sig' (the file starts with a BOM that is not part of its text), and binary objects handed over together
+# with an explicit encoding= argument (the lines then come back as str decoded with it).  Same oracle on the *text*.
+
+ENC_TOKENS = {
+    'latin-1': ('a', '\n', '\r\n', '\xe9', '\xc3', '\xa9'),
+    'cp1252': ('a', '\n', '\r\n', '\u20ac', '\xc3', '\xa9'),          # the euro sign is the byte 0x80 there
+    'utf-8-sig': ('a', '\n', '\r\n', '\xe9', '\u2028', ' '),
+}
+ENCODINGS = tuple(ENC_TOKENS)
+ENC_MODES = ('file-text', 'textio-bytesio', 'bytesio+encoding', 'file-rb+encoding')
+
+
+def call_reverse_enc(jsonutils, mode, enc, data, path, blocksize, preseek):
+    kw = {}
+    if mode == 'file-text':
+        f = open(path, 'r', encoding=enc)
+        closer = f.buffer.raw.close
+    elif mode == 'textio-bytesio':
+        b = io.BytesIO(data)
+        f, closer = io.TextIOWrapper(b, encoding=enc), b.close
+    elif mode == 'bytesio+encoding':
+        f = io.BytesIO(data)
+        closer, kw['encoding'] = f.close, enc
+    elif mode == 'file-rb+encoding':
+        f = open(path, 'rb')
+        closer, kw['encoding'] = f.raw.close, enc
+    else:
+        raise AssertionError(mode)
+    try:
+        if not preseek:
+            f.seek(0, os.SEEK_END)
+            kw['preseek'] = False
+        if blocksize is not None:
+            kw['blocksize'] = blocksize
+        try:
+            with deadline():
+                it = jsonutils.reverse_iter_lines(f, **kw)
+        except Hang:
+            return ('hang', 'no result')
+        except Exception as e:
+            return ('exc', type(e).__name__)
+        return drain(it, limit=max(ITEM_LIMIT, len(data) + 2))
+    finally:
+        try:
+            closer()
+        except Exception:
+            pass
+
+
+def check_enc_case(jsonutils, case, path, write=True):
+    """-> (what disagreed or None, acceptable results, observed)"""
+    content, enc = case['content'], case['encoding']
+    data = content.encode(enc)                       # 'utf-8-sig' prepends the BOM
+    if write:
+        with open(path, 'wb') as f:
+            f.write(data)
+    accept = rev_expected(content, True)
+    obs = call_reverse_enc(jsonutils, case['mode'], enc, data, path, case['blocksize'], case['preseek'])
+    if obs[0] == 'ok' and obs[1] in accept:
+        return None, accept, obs
+    return classify_rev(content, True, obs, accept), accept, obs
+
+
+ENC_JSONL_MENU = ('{"k": "\xe9"}', '', '["\xc3\xa9", 1]', '{corrupt')
+
+
+def check_enc_jsonl_case(jsonutils, case, path):
+    lines = tuple(l.replace('\xe9', '\u20ac') if case['encoding'] == 'cp1252' else l for l in case['lines'])
+    data = jsonl_content(lines, '\n', case['trailing']).encode(case['encoding'])
+    with open(path, 'wb') as f:
+        f.write(data)
+    exp = jsonl_expected(lines, case['ignore_errors'], case['reverse'])
+    obs = run_jsonl(jsonutils, 'file-text:' + case['encoding'], data, path, case['ignore_errors'], case['reverse'],
+                    case['blocksize'])
+    if obs == ('ok', exp):
+        return None, exp, obs
+    return ('C19|cls:JSONLIterator|%s|%s' % ('reverse' if case['reverse'] else 'forward', gap_what(obs)), exp, obs)
+
+
+def enc_shard(arg):
+    from boltons import jsonutils
+    scratch, enc, n, maxlines = arg
+    t = inputs.Tally()
+    path = os.path.join(scratch, 'enc-%d.dat' % os.getpid())
+    if n == 'jsonl':
+        for k in range(maxlines + 1):
+            for lines in itertools.product(ENC_JSONL_MENU, repeat=k):
+                for trailing in ((True,) if not lines else (False, True)):
+                    for ignore_errors in (False, True):
+                        for reverse, bs in ((False, None), (True, None), (True, 3)):
+                            if saw_hang():
+                                t.add('cut_short_after_hang')
+                                return t
+                            case = {'part': 'jsonl-encodings', 'lines': list(lines), 'trailing': trailing,
+                                    'encoding': enc, 'ignore_errors': ignore_errors, 'reverse': reverse,
+                                    'blocksize': bs}
+                            nontrivial = any(ord(c) > 127 for l in lines for c in l)
+                            t.count(nontrivial=nontrivial, sample=case if nontrivial and reverse else None)
+                            sig, exp, obs = check_enc_jsonl_case(jsonutils, case, path)
+                            if sig:
+                                t.bad(sig, case, exp, list(obs), tags=['file-text', 'encoding_' + enc,
+                                                                       'ignore_errors' if ignore_errors else 'strict'])
+                                if obs[0] == 'hang':
+                                    saw_hang(t)
+                                    return t
+        return t
+    for toks in itertools.product(ENC_TOKENS[enc], repeat=n):
+        content = ''.join(toks)
+        nbytes = len(content.encode(enc))
+        nontrivial = '\n' in content and any(ord(c) > 127 for c in content)
+        first = True
+        for mode in ENC_MODES:
+            for preseek in (True, False):
+                for bs in rev_blocksizes(nbytes):
+                    if saw_hang():
+                        t.add('cut_short_after_hang')
+                        return t
+                    case = {'part': 'reverse_iter_lines-encodings', 'content': content, 'encoding': enc, 'mode': mode,
+                            'blocksize': bs, 'preseek': preseek}
+                    t.count(nontrivial=nontrivial, sample=case if nontrivial and bs and bs > 1 else None)
+                    what, accept, obs = check_enc_case(jsonutils, case, path, write=first)
+                    first = False
+                    if what:
+                        t.bad('C19|fn:reverse_iter_lines|' + what, case,
+                              accept[0] if len(accept) == 1 else {'any of': accept}, list(obs),
+                              tags=[mode, 'encoding_' + enc])
+                        if obs[0] == 'hang':
+                            saw_hang(t)
+                            return t
+    return t
+
+
+def enc_shards(scratch, maxtok, maxlines):
+    return ([(scratch, enc, n, maxlines) for n in range(maxtok + 1) for enc in ENCODINGS]
+            + [(scratch, enc, 'jsonl', maxlines) for enc in ENCODINGS])
+
+
+# ---------------------------------------------------------------------------------------------------------------
+# part 2c: files larger than the *default* block (the module constant, found by introspection) with every byte of a
+# repeated pattern falling on a block edge.  Directed: the sizes are a sample.
+
+EDGE_PATTERNS = ('\u00e9\r\n', 'a\n\n', '\u2028\n', '\U0001f600 \r\n\r\n')
+_EDGE_CURRENT = {}
+
+
+def edge_block(jsonutils):
+    b = getattr(jsonutils, 'DEFAULT_BLOCKSIZE', None)
+    return b if isinstance(b, int) and 16 <= b <= 2 ** 20 else 4096
+
+
+def edge_content(pattern, shift, block):
+    return pattern * (2 * block // len(pattern.encode('utf-8')) + 3) + 'b' * shift
+
+
+def edge_case(content):
+    return dict(_EDGE_CURRENT)
+
+
+def edge_shard(arg):
+    from boltons import jsonutils
+    scratch, pi, modes = arg
+    t = inputs.Tally()
+    path = os.path.join(scratch, 'edge-%d.dat' % os.getpid())
+    block = edge_block(jsonutils)
+    pattern = EDGE_PATTERNS[pi]
+    for shift in range(len(pattern.encode('utf-8')) + 1):
+        if saw_hang():
+            t.add('cut_short_after_hang')
+            break
+        _EDGE_CURRENT.clear()
+        _EDGE_CURRENT.update(pattern=pattern, shift=shift, block=block)
+        check_rev_content(jsonutils, edge_content(pattern, shift, block), path, modes, t,
+                          blocksizes=(None, block, block - 1, block + 1, 2 * block),
+                          part='reverse_iter_lines-block-edges')
+    return t
 
 
 # ---------------------------------------------------------------------------------------------------------------
@@ -477,12 +854,16 @@ def open_jsonl(kind, data, path):
     if kind == 'file-text':
         f = open(path, 'r', encoding='utf-8')
         return f, f.buffer.raw.close
+    if kind.startswith('file-text:'):
+        f = open(path, 'r', encoding=kind.split(':', 1)[1])
+        return f, f.buffer.raw.close
     raise AssertionError(kind)
 
 
-def run_jsonl(jsonutils, kind, data, path, ignore_errors, reverse, blocksize):
+def run_jsonl(jsonutils, kind, data, path, ignore_errors, reverse, blocksize, protocol='__next__'):
     """Drive a JSONLIterator to its end (or first exception).  blocksize None = native; otherwise the module-global
-    reverse_iter_lines is wrapped so that the iterator's internal 4096 is replaced by the scaled value."""
+    reverse_iter_lines is wrapped so that the iterator's internal 4096 is replaced by the scaled value.
+    protocol '__next__': next(it);  'next': the documented method iter(it).next()."""
     f, closer = open_jsonl(kind, data, path)
     orig = jsonutils.reverse_iter_lines
     if reverse and blocksize is not None:
@@ -494,9 +875,11 @@ def run_jsonl(jsonutils, kind, data, path, ignore_errors, reverse, blocksize):
         try:
             with deadline():
                 it = jsonutils.JSONLIterator(f, ignore_errors=ignore_errors, reverse=reverse)
+                if protocol == 'next':
+                    it = iter(it)
                 for _ in range(ITEM_LIMIT):
                     try:
-                        out.append(next(it))
+                        out.append(it.next() if protocol == 'next' else next(it))
                     except StopIteration:
                         break
                     except ValueError:
@@ -705,6 +1088,150 @@ def gap_shards(scratch, quick):
 
 
 # ---------------------------------------------------------------------------------------------------------------
+# part 3c: the forms of a corrupt ("undecodable") line.  A catalogue generated from JSON values x textual damages; whether
+# a catalogue line is decodable is decided by the stdlib's json.loads (the function the class documents), so damages that
+# happen to produce valid JSON ('1' + '1', a padded value) are simply records.
+
+FORM_VALUES = ('{}', '{"1": 1}', '[1, "\u00e9"]', '1', 'null', '"s"', 'true', '-1.5e3', '0', 'false', '""')
+FORM_BLANKS = ('\t', ' \t ')                            # blank lines that are not made of spaces only
+FORM_DAMAGES = (            # name, function of the value text
+    ('doubled', lambda v: v + v),                       # two records run together (a lost newline)
+    ('doubled-spaced', lambda v: v + ' ' + v),
+    ('doubled-comma', lambda v: v + ',' + v),
+    ('then-letter', lambda v: v + 'x'),
+    ('then-bracket', lambda v: v + ']'),
+    ('then-brace', lambda v: v + '}'),
+    ('then-comma', lambda v: v + ','),
+    ('then-comment', lambda v: v + ' # c'),
+    ('then-open', lambda v: v + ' ['),
+    ('cut-last', lambda v: v[:-1]),
+    ('cut-first', lambda v: v[1:]),
+    ('letter-first', lambda v: 'x' + v),
+    ('open-first', lambda v: '[' + v),
+    ('wrapped', lambda v: '[' + v + ']'),
+    ('padded', lambda v: ' ' + v + ' '),
+    ('tab-padded', lambda v: '\t' + v + '\t'),
+    ('single-quoted', lambda v: v.replace('"', "'") if '"' in v else "'" + v + "'"),
+)
+FORM_OBJ = '{"1": 1}'
+FORM_LAYOUTS = (('C',), ('O', 'C', 'O'), ('C', 'O'), ('', 'C', 'C'))       # C = the catalogue line, O = FORM_OBJ
+FORM_EOLS = ('\n', '\r\n')
+DEEP_NAME = '<nested deeper than json.loads accepts>'
+_DEEP = []
+
+
+def deep_line():
+    """'[' * n for the smallest power of two n at which the stdlib decoder gives up (RecursionError), doubled.  Such a
+    line raises an error on deserialisation that is not a ValueError.  None if the decoder never gives up below 2**20."""
+    if not _DEEP:
+        n, found = 64, None
+        while n <= 2 ** 20 and found is None:
+            try:
+                json.loads('[' * n)
+            except RecursionError:
+                found = n
+            except ValueError:
+                pass
+            n *= 2
+        _DEEP.append('[' * (2 * found) if found else None)
+    return _DEEP[0]
+
+
+def form_lines():
+    """The catalogue: (name, line), deduplicated, blank results dropped, simplest (shortest) values first."""
+    seen, out = set(), [('blank', b) for b in FORM_BLANKS]
+    for dname, fn in FORM_DAMAGES:
+        for v in FORM_VALUES:
+            line = fn(v)
+            if line.strip() and line not in seen:
+                seen.add(line)
+                out.append((dname, line))
+    return out
+
+
+def form_decodable(line):
+    try:
+        json.loads(line)
+        return True
+    except Exception:
+        return False
+
+
+def form_file(layout, line, eol):
+    lines = tuple(line if x == 'C' else (FORM_OBJ if x == 'O' else x) for x in layout)
+    return lines, jsonl_content(lines, eol, True).encode('utf-8')
+
+
+def form_expected(lines, ignore_errors, reverse):
+    out = []
+    for l in (lines[::-1] if reverse else lines):
+        if not l.strip():
+            continue
+        try:
+            out.append(json.loads(l))
+        except ValueError:
+            if not ignore_errors:
+                out.append('<ValueError>')
+                break
+        except Exception:
+            if not ignore_errors:
+                raise AssertionError('harness: only explored with ignore_errors')
+    return out
+
+
+def run_form_case(jsonutils, case, path):
+    line = deep_line() if case['line'] == DEEP_NAME else case['line']
+    lines, data = form_file(FORM_LAYOUTS[case['layout']], line, case['eol'])
+    with open(path, 'wb') as f:
+        f.write(data)
+    exp = form_expected(lines, case['ignore_errors'], case['reverse'])
+    obs = run_jsonl(jsonutils, case['kind'], data, path, case['ignore_errors'], case['reverse'], case['blocksize'],
+                    protocol=case['protocol'])
+    if obs == ('ok', exp) and repr(obs[1]) == repr(exp):          # repr: 1 / True / 1.0 are different records
+        return None, exp, obs
+    return ('C19|cls:JSONLIterator|%s|%s' % ('reverse' if case['reverse'] else 'forward', gap_what(obs)), exp, obs)
+
+
+def form_shard(arg):
+    from boltons import jsonutils
+    scratch, which, nshards = arg
+    t = inputs.Tally()
+    path = os.path.join(scratch, 'form-%d.dat' % os.getpid())
+    todo = [(d, l, False) for d, l in form_lines()][which::nshards]
+    if which == nshards - 1 and deep_line() is not None:
+        todo.append(('too-deep', DEEP_NAME, True))
+    for dname, line, deep in todo:
+        undecodable = deep or not line.strip() or not form_decodable(line)
+        for li, layout in enumerate(FORM_LAYOUTS):
+            for eol in FORM_EOLS:
+                for kind in JSONL_KINDS:
+                    for ignore_errors in ((True,) if deep else (False, True)):
+                        for reverse, bs in ((False, None), (True, None), (True, 3)):
+                            if deep and bs == 3:
+                                continue            # a 3-byte block on a line of many KiB is quadratic
+                            if saw_hang():
+                                t.add('cut_short_after_hang')
+                                return t
+                            case = {'part': 'jsonl-corrupt-forms', 'damage': dname, 'line': line, 'layout': li,
+                                    'eol': eol, 'kind': kind, 'ignore_errors': ignore_errors, 'reverse': reverse,
+                                    'blocksize': bs, 'protocol': 'next' if (li + reverse) % 2 else '__next__'}
+                            t.count(nontrivial=undecodable, sample=case if undecodable and reverse else None)
+                            sig, exp, obs = run_form_case(jsonutils, case, path)
+                            if sig is None:
+                                continue
+                            t.bad(sig, case, jsonl_short(exp), jsonl_short(list(obs)),
+                                  tags=[kind, 'ignore_errors' if ignore_errors else 'strict', 'corrupt_line_forms'])
+                            if obs[0] == 'hang':
+                                saw_hang(t)
+                                return t
+    t.add('catalogue_lines', len(todo))
+    return t
+
+
+FORM_SHARDS = 16
+
+
+# ---------------------------------------------------------------------------------------------------------------
 
 def bounds(ctx):
     q = ctx.quick()
@@ -712,6 +1239,10 @@ def bounds(ctx):
         'split_maxlen': 5 if q else 6,
         'indent_maxlen': 3 if q else 4,
         'rev_maxtok': 5 if q else 6,
+        'rev_state_maxtok': 4 if q else 5,
+        'enc_maxtok': 3 if q else 4,
+        'enc_jsonl_maxlines': 2 if q else 3,
+        'rev_state_modes': REV_STATE_MODES_QUICK if q else REV_STATE_MODES,
         'jsonl_maxlines': 3 if q else 4,
         'jsonl_eols': ('\n',) if q else ('\n', '\r\n'),
     }
@@ -726,10 +1257,33 @@ def run(ctx):
         t1 = inputs.run_shards(
             ctx, split_shard, split_shards(b['split_maxlen'], b['indent_maxlen']), part='iter_splitlines+indent',
             rule='text contains at least one of the 8 line-break forms')
-        HANG_FLAG = os.path.join(scratch, 'HANG-2')        # stop the exploration of the others
+        HANG_FLAG = os.path.join(scratch, 'HANG-1b')       # stop the exploration of the others
+        t1b = inputs.run_shards(
+            ctx, chars_shard, chars_shards(), part='iter_splitlines-chars',
+            rule='the character is a control, format or separator character (Unicode category C* / Z*, assigned) '
+                 'or the text contains a listed line break')
+        ctx.coverage['parts']['iter_splitlines-chars']['directed'] = (
+            'bulk texts: the numbers of lines are a sample (around powers of two), not every size')
+        HANG_FLAG = os.path.join(scratch, 'HANG-2')
         t2 = inputs.run_shards(
             ctx, rev_shard, rev_shards(scratch, b['rev_maxtok'], REV_MODES), part='reverse_iter_lines',
             rule='content contains at least one \\n or \\r\\n (case = content x blocksize x file kind x preseek)')
+        HANG_FLAG = os.path.join(scratch, 'HANG-2s')
+        t2s = inputs.run_shards(
+            ctx, rev_shard, rev_shards(scratch, b['rev_state_maxtok'], b['rev_state_modes']),
+            part='reverse_iter_lines-file-state',
+            rule='content contains at least one \\n or \\r\\n (case = content x blocksize x file state x preseek)')
+        HANG_FLAG = os.path.join(scratch, 'HANG-2c')
+        t2c = inputs.run_shards(
+            ctx, edge_shard, [(scratch, pi, REV_MODES + REV_STATE_MODES) for pi in range(len(EDGE_PATTERNS))],
+            part='reverse_iter_lines-block-edges', rule='every content holds thousands of line breaks')
+        ctx.coverage['parts']['reverse_iter_lines-block-edges']['directed'] = (
+            'file sizes just above twice the default block size only')
+        HANG_FLAG = os.path.join(scratch, 'HANG-2d')
+        t2d = inputs.run_shards(
+            ctx, enc_shard, enc_shards(scratch, b['enc_maxtok'], b['enc_jsonl_maxlines']),
+            part='reverse_iter_lines-encodings',
+            rule='the text has a line break and a character >= U+0080 / the JSONL file has a character >= U+0080')
         HANG_FLAG = os.path.join(scratch, 'HANG-2b')
         t2b = inputs.run_shards(
             ctx, mb_shard, [(scratch, lead, REV_MODES) for lead in MB_LEADS], part='reverse_iter_lines-multibyte',
@@ -746,17 +1300,21 @@ def run(ctx):
             rule='every file has two objects separated and surrounded by runs of >= 255 skipped lines')
         ctx.coverage['parts']['jsonl-long-gaps']['directed'] = ('the run lengths are a sample (around powers of two '
                                                                 'and the recursion limit), not every file size')
+        HANG_FLAG = os.path.join(scratch, 'HANG-3c')
+        t3c = inputs.run_shards(
+            ctx, form_shard, [(scratch, k, FORM_SHARDS) for k in range(FORM_SHARDS)], part='jsonl-corrupt-forms',
+            rule='the catalogue line is blank or undecodable for the stdlib json.loads')
         left = sorted(os.listdir(scratch))
     finally:
         HANG_FLAG = None
         shutil.rmtree(scratch, ignore_errors=True)
-    leaked = t2.extra.get('harness_open_files_left', 0)
+    leaked = t2.extra.get('harness_open_files_left', 0) + t2s.extra.get('harness_open_files_left', 0)
     if leaked:
         ctx.note('harness: %d file descriptors were still open at the end of reverse_iter_lines shards' % leaked)
     ctx.coverage['rule'] = ('non-trivial = the input contains a line break (iter_splitlines, reverse_iter_lines) / '
                             'the JSONL file has >= 2 lines with a blank or corrupt one; every counted case is a '
                             'distinct (input, configuration) tuple by construction')
-    cut = sum(t.extra.get('cut_short_after_hang', 0) + t.extra.get('hangs', 0) for t in (t1, t2, t2b, t3, t3b))
+    cut = sum(t.extra.get('cut_short_after_hang', 0) + t.extra.get('hangs', 0) for t in (t1, t1b, t2, t2s, t2c, t2d, t2b, t3, t3b, t3c))
     ctx.coverage['exhaustive'] = not cut
     if cut:
         ctx.note('a call into the code under test did not terminate within %d CPU-seconds: the remaining shards were '
@@ -772,6 +1330,37 @@ def run(ctx):
                   'trailing_eol': [False, True], 'kinds': list(JSONL_KINDS), 'ignore_errors': [False, True],
                   'directions': 'forward; reverse with block 4096 (native), 3, len(file)-1, len(file), len(file)+1'
                                 + ('' if ctx.quick() else ', 1 (files without the 5000-byte line)')},
+        'iter_splitlines-chars': {
+            'every code point': 'U+0000..U+10FFFF except \\x1c \\x1d \\x1e, in the template %r (X = the character)'
+                                % SWEEP_TEMPLATE,
+            'code points below U+%04X' % LOW_LIMIT: 'also in the templates %r' % (LOW_TEMPLATES,),
+            'pairs': 'every 2-character text over U+0000..U+00FF (without \\x1c-\\x1e), U+2028, U+2029',
+            'bulk': {'kinds': ['cycle through the 8 break forms', 'the same without the final break',
+                               '\\x1f-delimited fields, \\n-terminated records'],
+                     'numbers_of_lines': bulk_sizes(), 'exhaustive_in_size': False}},
+        'reverse_iter_lines-file-state': {
+            'tokens': list(REV_TOKENS), 'max_tokens': b['rev_state_maxtok'],
+            'blocksizes': '1, 2, 3, len(bytes)-1, len(bytes), len(bytes)+1 and the default 4096',
+            'file states': list(b['rev_state_modes']),
+            'unflushed': 'the second half of the characters (w+ / TextIOWrapper(BytesIO()): all of them) was written '
+                         'through the object handed over and not flushed',
+            'preseek': [True, 'False (not for the partly read file): the cursor is at the end after the writes']},
+        'jsonl-corrupt-forms': {
+            'values': list(FORM_VALUES), 'blank_forms': list(FORM_BLANKS), 'damages': [d[0] for d in FORM_DAMAGES] + ['too-deep (ignore_errors only)'],
+            'catalogue_lines': len(form_lines()), 'layouts (C = catalogue line, O = an object)':
+                [list(l) for l in FORM_LAYOUTS], 'eol': list(FORM_EOLS), 'kinds': list(JSONL_KINDS),
+            'ignore_errors': [False, True], 'directions': 'forward; reverse with block 4096 and 3',
+            'protocols': ['next(it)', 'iter(it).next()']},
+        'reverse_iter_lines-block-edges': {
+            'content': 'pattern * (2 * DEFAULT_BLOCKSIZE // len(pattern) + 3) + "b" * shift, shift 0..len(pattern)',
+            'patterns': list(EDGE_PATTERNS), 'blocksizes': 'default, DEFAULT_BLOCKSIZE (read from the module), -1, +1, x2',
+            'modes': list(REV_MODES + REV_STATE_MODES), 'exhaustive_in_size': False},
+        'reverse_iter_lines-encodings': {
+            'encodings': list(ENCODINGS), 'tokens': {e: list(v) for e, v in ENC_TOKENS.items()},
+            'max_tokens': b['enc_maxtok'], 'blocksizes': 'every 1..len(bytes)+1 and the default 4096',
+            'modes': list(ENC_MODES), 'preseek': [True, 'False with the cursor at the end'],
+            'jsonl': {'line_menu': list(ENC_JSONL_MENU), 'max_lines': b['enc_jsonl_maxlines'], 'kind': 'text-mode file',
+                      'directions': 'forward; reverse with block 4096 and 3', 'ignore_errors': [False, True]}},
         'reverse_iter_lines-multibyte': {
             'characters': 'lowest and highest code point of every UTF-8 lead byte 0xC2..0xF4 (%d characters)'
                           % sum(len(_lead_extremes(b)) for b in MB_LEADS),
@@ -784,14 +1373,23 @@ def run(ctx):
     }
     ctx.coverage['scratch_left_behind'] = [f for f in left if not f.endswith('.dat') and not f.startswith('HANG')]
     ctx.assumptions += [
-        'files are UTF-8; text-mode files are opened with encoding="utf-8"',
+        'files are UTF-8 and text-mode files are opened with encoding="utf-8", except in the part '
+        'reverse_iter_lines-encodings: text-mode files in latin-1, cp1252 and utf-8-sig (the BOM is not part of the '
+        'text).  Encodings whose line feed is not the single byte 0x0A (UTF-16/32) are not explored',
+        'a binary object handed over with an explicit encoding= yields its lines as str decoded with that encoding',
+        'a JSONLIterator over a non-UTF-8 text-mode file is held to the statement only: the same objects forward and '
+        'in reverse',
         'a lone \\r is not a line break of reverse_iter_lines\' domain (statement: \\n- or \\r\\n-separated) and is '
         'not in the content alphabet',
         'an empty file may yield no line or one empty line (the statement does not say); both are accepted',
         'preseek=False is explored only with the cursor at the end of the file; rel_seek is not explored',
         'without ignore_errors the iterator is driven up to the first ValueError only (resuming is not promised)',
         'long runs of skipped lines are explored for a sample of run lengths only (directed scenario)',
-        'str.splitlines also breaks at \\x1c-\\x1e, which the statement does not list: those are not in the alphabet',
+        'str.splitlines also breaks at \\x1c-\\x1e, which the statement does not list: texts containing them are '
+        'outside its domain and are the only code points never passed to iter_splitlines',
+        'a file with unflushed writes has the content that reading it back through the same object would show',
+        'a line that json.loads cannot decode because it is nested too deeply (RecursionError) is an undecodable line; '
+        'it is explored with ignore_errors only (which error is raised without it is not stated)',
     ]
 
 
@@ -806,14 +1404,22 @@ def replay(ctx, data):
         bad = check_split(strutils, case['text'])
         if bad:
             msgs.append('%s text=%r expected=%r observed=%r' % (bad[0], case['text'], bad[1], bad[2]))
+    elif part == 'iter_splitlines-chars':
+        text = chars_text(case)
+        bad = check_split(strutils, text)
+        if bad:
+            msgs.append('%s %s' % (bad[0], ('text=%r expected=%r observed=%r' % (text, bad[1], bad[2]))
+                                   if len(text) < 100 else 'bulk text %s n=%d' % (case['bulk'], case['n'])))
     elif part == 'indent':
         bad = check_indent(strutils, case['text'], INDENT_SETTINGS[case['setting']])
         if bad:
             msgs.append('%s text=%r expected=%r observed=%r' % (bad[0], case['text'], bad[1], bad[2]))
-    elif part == 'reverse_iter_lines':
+    elif part in ('reverse_iter_lines', 'reverse_iter_lines-block-edges'):
         scratch = core.scratch_dir('c19-replay')
         try:
             content = case['content']
+            if part == 'reverse_iter_lines-block-edges':
+                content = edge_content(case['pattern'], case['shift'], case['block'])
             path = os.path.join(scratch, 'rev.dat')
             databytes = content.encode('utf-8')
             with open(path, 'wb') as f:
@@ -821,7 +1427,14 @@ def replay(ctx, data):
             textmode = case['mode'] in TEXT_MODES
             accept = rev_expected(content, textmode)
             obs = call_reverse(jsonutils, case['mode'], databytes, path, case['blocksize'], case['preseek'])
-            if not (obs[0] == 'ok' and obs[1] in accept):
+            if part == 'reverse_iter_lines-block-edges':
+                if not (obs[0] == 'ok' and obs[1] in accept):
+                    msgs.append('C19|fn:reverse_iter_lines|%s content=%r*n+%r (%d bytes) mode=%s blocksize=%r '
+                                'preseek=%r observed %s'
+                                % (classify_rev(content, textmode, obs, accept), case['pattern'], 'b' * case['shift'],
+                                   len(databytes), case['mode'], case['blocksize'], case['preseek'],
+                                   '%d items instead of %d' % (len(obs[1]), len(accept[0])) if obs[0] == 'ok' else obs))
+            elif not (obs[0] == 'ok' and obs[1] in accept):
                 msgs.append('C19|fn:reverse_iter_lines|%s content=%r mode=%s blocksize=%r preseek=%r expected=%r '
                             'observed=%r' % (classify_rev(content, textmode, obs, accept), content, case['mode'],
                                              case['blocksize'], case['preseek'], accept, obs))
@@ -853,6 +1466,35 @@ def replay(ctx, data):
                             % ('reverse' if case['reverse'] else 'forward', list(lines), case['eol'],
                                case['trailing'], case['kind'], case['ignore_errors'], case['blocksize'],
                                jsonl_short(exp), jsonl_short(list(obs))))
+        finally:
+            shutil.rmtree(scratch, ignore_errors=True)
+    elif part in ('reverse_iter_lines-encodings', 'jsonl-encodings'):
+        scratch = core.scratch_dir('c19-replay')
+        try:
+            path = os.path.join(scratch, 'enc.dat')
+            if part == 'jsonl-encodings':
+                sig, exp, obs = check_enc_jsonl_case(jsonutils, case, path)
+                if sig:
+                    msgs.append('%s lines=%r trailing=%r text-mode file encoding=%s ignore_errors=%r blocksize=%r '
+                                'expected=%r observed=%r' % (sig, case['lines'], case['trailing'], case['encoding'],
+                                                             case['ignore_errors'], case['blocksize'], exp, obs))
+            else:
+                what, accept, obs = check_enc_case(jsonutils, case, path)
+                if what:
+                    msgs.append('C19|fn:reverse_iter_lines|%s content=%r encoding=%s mode=%s blocksize=%r preseek=%r '
+                                'expected=%r observed=%r' % (what, case['content'], case['encoding'], case['mode'],
+                                                             case['blocksize'], case['preseek'], accept, obs))
+        finally:
+            shutil.rmtree(scratch, ignore_errors=True)
+    elif part == 'jsonl-corrupt-forms':
+        scratch = core.scratch_dir('c19-replay')
+        try:
+            sig, exp, obs = run_form_case(jsonutils, case, os.path.join(scratch, 'form.dat'))
+            if sig:
+                msgs.append('%s line=%r layout=%r eol=%r kind=%s ignore_errors=%r blocksize=%r protocol=%s expected=%r '
+                            'observed=%r' % (sig, case['line'], list(FORM_LAYOUTS[case['layout']]), case['eol'],
+                                             case['kind'], case['ignore_errors'], case['blocksize'],
+                                             case['protocol'], jsonl_short(exp), jsonl_short(list(obs))))
         finally:
             shutil.rmtree(scratch, ignore_errors=True)
     elif part == 'jsonl-long-gaps':
